@@ -1,11 +1,11 @@
-(* Property C03, fourth part: the invariants assumed by the undo theorems (FPos: no empty fund, FUniq: distinct fund
+(* Property C03, third part: the invariants assumed by the undo theorems (FPos: no empty fund, FUniq: distinct fund
    owners inside a pool; SInv is in Proofs/StakedSum.v) hold in every ledger reached from the empty ledger by applying
    blocks - through the staker reward too - and the undo of a block iterated over several blocks
    (a reorganisation disconnects the blocks above the common ancestor, highest first). *)
-From Coq Require Import Sorting.Sorted Sorting.Permutation.
+From Coq Require Import Sorting.Sorted.
 From Virel Require Import Lib.Config Lib.U64 Lib.AMap Model.Emission Model.Ledger
   Proofs.AMapLemmas Proofs.Emission Proofs.Conservation Proofs.Pointwise Proofs.Staking Proofs.StakedSum
-  Proofs.Undo Proofs.Undo2 Proofs.Undo3.
+  Proofs.Undo Proofs.Undo2.
 Open Scope N_scope.
 Open Scope bool_scope.
 
@@ -138,7 +138,7 @@ Proof.
   induction txs as [|t txs IH]; intros l h bh top fee ln fee' HI Hwf Hsp H; cbn [apply_txs] in H.
   - injection H as <- _. exact HI.
   - inversion Hwf; subst. inversion Hsp; subst. bind_inv H. guard_inv H.
-    eapply IH; [|eassumption|eassumption|exact H]. eapply PInv_tx; eassumption.
+    eapply IH; [|eassumption|eassumption|exact H]. eapply (PInv_tx cfg); eassumption.
 Qed.
 
 Lemma coinbase_pos_amount b total outs :
@@ -267,7 +267,7 @@ Proof.
 Qed.
 
 (* Disconnecting the blocks of a chain segment, highest first, after connecting them: accounts, staked total and
-   delegate table (up to fund order) are those before the segment.  The hashes of the blocks and transactions of the
+   delegate table are those before the segment.  The hashes of the blocks and transactions of the
    segment are pairwise distinct (they key the delegate history); the stale delegate-history entries left behind by
    the undo are harmless because every entry is written by the application before the matching removal reads it. *)
 Theorem undo_chain bs : forall l (h : nat) ln,
@@ -277,8 +277,8 @@ Theorem undo_chain bs : forall l (h : nat) ln,
   (forall a, inc (acct_at l a) + chain_nouts bs < two64) ->
   (forall a, nonce (acct_at l a) + chain_ntx bs < two64) ->
   apply_chain cfg genesis_addr l bs = Ok ln ->
-  forall l', leqv_p ln l' -> (forall k, In k (chain_keys bs) -> nget (dhist l') k = nget (dhist ln) k) ->
-  exists l2, remove_chain l' (rev bs) = Ok l2 /\ leqv_p l l2 /\ dhist l2 = dhist l'.
+  forall l', leqv ln l' -> (forall k, In k (chain_keys bs) -> nget (dhist l') k = nget (dhist ln) k) ->
+  exists l2, remove_chain l' (rev bs) = Ok l2 /\ leqv l l2 /\ dhist l2 = dhist l'.
 Proof.
   induction bs as [|b bs IH]; intros l h ln Ht Hh HI Hok' Hnd Hinc Hnon H l' Heq Hk; cbn [apply_chain] in H.
   - injection H as <-. exists l'. cbn [rev remove_chain]. split; [reflexivity|]. split; [exact Heq|reflexivity].
@@ -296,20 +296,38 @@ Proof.
     destruct HI as (HS & HP & HU).
     assert (Hinc0 : forall a, inc (acct_at l a) + nouts_sum (lb_txs b) + 4 < two64) by (intros a; specialize (Hinc a); lia).
     assert (Hnon0 : forall a, nonce (acct_at l a) + N.of_nat (length (lb_txs b)) < two64) by (intros a; specialize (Hnon a); lia).
-    pose proof (apply_block_frame cfg genesis_addr l b _ l1 Hok HS HP HU Hroom Hb Hsp Hndt Hbh Hinc0 Hnon0 E) as Hfr.
+    assert (Hhyps : block_hyps cfg l b).
+    { split; [exact Hok|]. split; [exact HS|]. split; [exact HP|]. split; [exact HU|]. split; [exact Hroom|].
+      split; [exact Hb|]. split; [exact Hsp|]. split; [exact Hndt|]. split; [exact Hbh|]. split; assumption. }
+    pose proof (apply_block_frame cfg genesis_addr l b _ l1 Hhyps E) as Hfr.
     destruct (IH l1 (S h) ln Hstep Hh HI1 Hbs Hndr
                 ltac:(intros a; destruct (Hfr a); specialize (Hinc a); lia)
                 ltac:(intros a; destruct (Hfr a); specialize (Hnon a); lia) H l' Heq
                 ltac:(intros k Hin; apply Hk; apply in_or_app; right; exact Hin)) as (l1' & Hrm & Heq1 & Hh1).
-    assert (Hhyps : block_hyps cfg l b).
-    { split; [exact Hok|]. split; [exact HS|]. split; [exact HP|]. split; [exact HU|]. split; [exact Hroom|].
-      split; [exact Hb|]. split; [exact Hsp|]. split; [exact Hndt|]. split; [exact Hbh|]. split; assumption. }
-    destruct (undo_block_general cfg genesis_addr l b _ l1 Hhyps E l1' (lb_height b) Heq1) as (l2 & Hr & Heq2 & Hh2).
+    destruct (undo_block cfg genesis_addr l b _ l1 Hhyps E l1' (lb_height b) Heq1) as (l2 & Hr & Heq2 & Hh2).
     { intros k Hkb. assert (Hin : In k (block_keys b)) by (cbn [block_keys In]; destruct Hkb as [->|Hkb]; [left; reflexivity|right; exact Hkb]).
       rewrite Hh1, (Hk k ltac:(apply in_or_app; left; exact Hin)).
       apply (apply_chain_dhist bs l1 ln k H). apply Hdis. exact Hin. }
     exists l2. cbn [rev]. rewrite remove_chain_app, Hrm. cbn [bind remove_chain]. rewrite Hr. cbn [bind].
     split; [reflexivity|]. split; [exact Heq2|congruence].
+Qed.
+
+(* the literal conclusion of C03_undo_block_full for a whole segment *)
+Corollary remove_apply_chain bs l (h : nat) ln :
+  total_bal l = sum_rewards cfg h -> heights_from h bs -> PInv l ->
+  Forall (fun b => Forall (tx_ok cfg) (lb_txs b) /\ Forall stake_pos (lb_txs b)) bs ->
+  NoDup (chain_keys bs) ->
+  (forall a, inc (acct_at l a) + chain_nouts bs < two64) ->
+  (forall a, nonce (acct_at l a) + chain_ntx bs < two64) ->
+  apply_chain cfg genesis_addr l bs = Ok ln ->
+  exists l2, remove_chain ln (rev bs) = Ok l2 /\ same_accounts l2 l /\
+    dlgs l2 = dlgs l /\ (forall id, get_dlg l2 id = get_dlg l id) /\ staked l2 = staked l.
+Proof.
+  intros Ht Hh HI Hok' Hnd Hinc Hnon H.
+  destruct (undo_chain bs l h ln Ht Hh HI Hok' Hnd Hinc Hnon H ln (leqv_refl ln) ltac:(reflexivity))
+    as (l2 & Hr & (Hs & _ & Hd & Hst) & _).
+  exists l2. split; [exact Hr|]. split; [exact Hs|]. split; [symmetry; exact Hd|].
+  split; [intros id; unfold get_dlg; rewrite <- Hd; reflexivity|exact Hst].
 Qed.
 
 End Chain.
